@@ -292,3 +292,39 @@ def sampling(tier, rng, rep):
                 if not np.all(np.abs(dia_ - want_d / 2) <= 1e-6):
                     rep.fail("fs_diameter_at_a_pole", f"{nm_}: {dia_.tolist()} vs {(want_d / 2).tolist()}", {"variant": nm_}); return
         rep.attempt("disk_operations_run", inp, body)
+
+
+@bounded(P, "small_disks_far_from_the_origin", functions=[C + "CP1Disk.circle_parameters", C + "CP1Disk.contains", C + "CP1Disk.intersects", "geometry_tools/utils/core.py:circle_through"],
+         note="disks whose radius is tiny compared with the modulus of their centre (|c| / r up to 1e8): the reported centre and radius are those the disk was built from (relative to the "
+              "radius), and containment / intersection of nearby small disks agree with the set-theoretic answer")
+def small_disks_far_from_the_origin(tier, rng, rep):
+    N = 120 if tier == 'thorough' else 30
+    rep.rule = "|c| in 10^[1, 5], r in 10^[-3, 0] with |c| / r up to 1e8; pairs: disjoint with a gap of r/2, overlapping by r/2, nested (radius r/3 inside), and the complement of a far disjoint disk containing the other"
+    rep.bound = f"{N} centres x 4 configurations"
+    for t in range(N):
+        cm = 10 ** rng.uniform(1, 5)
+        c0 = cm * np.exp(1j * rng.uniform(0, 2 * np.pi))
+        r = 10 ** rng.uniform(-3, 0)
+        u = np.exp(1j * rng.uniform(0, 2 * np.pi))
+        inp = {"centre": [c0.real, c0.imag], "radius": r, "ratio": cm / r}
+
+        def body():
+            D = cp.CP1Disk(np.array([c0]), np.array([r]))
+            cc, rr = D.circle_parameters()
+            cc = np.asarray(cc, dtype=float).reshape(-1); cz = complex(cc[0], cc[1]) if cc.size == 2 else complex(np.asarray(cc).ravel()[0])
+            rr = float(np.asarray(rr).ravel()[0])
+            if not (abs(rr - r) <= 1e-5 * r and abs(cz - c0) <= 1e-5 * r):
+                rep.fail("reports_centre_and_radius", f"|c|/r = {cm / r:.3g}: reported radius {rr} (built with {r}), centre off by {abs(cz - c0):.3g}", inp); return
+            cfg = {"disjoint_gap_half_radius": (c0 + 2.5 * r * u, r, False, False), "overlap_half_radius": (c0 + 1.5 * r * u, r, True, False), "nested": (c0 + 0.3 * r * u, r / 3, True, True)}
+            for nm, (c1, r1, meets, inside) in cfg.items():
+                E_ = cp.CP1Disk(np.array([c1]), np.array([r1]))
+                gi = bool(np.asarray(D.intersects(E_)).ravel()[0]); gc = bool(np.asarray(D.contains(E_)).ravel()[0])
+                if gi != meets or gc != inside:
+                    rep.fail("set_theoretic_answer", f"{nm} at |c|/r = {cm / r:.3g}: intersects={gi} (expected {meets}), contains={gc} (expected {inside})", {**inp, "configuration": nm}); return
+            F_ = cp.CP1Disk(np.array([c0 + 10 * r * u]), np.array([r]))
+            if not bool(np.asarray(F_.complement().contains(D)).ravel()[0]):
+                rep.fail("set_theoretic_answer", f"complement of a disjoint disk does not contain the disk (|c|/r = {cm / r:.3g})", {**inp, "configuration": "complement_contains"})
+        rep.attempt("disk_operations_run", inp, body)
+        rep.case(key=(t,), nontrivial=cm / r > 1e6, sample=inp if t == 0 else None)
+        if len(rep.failures) >= 3:
+            return
